@@ -365,12 +365,14 @@ def history_oracles(scr, case, states):
         extra["slice_runs"] += 1
         tgt = target_of(idx[k])
         got = states[k][1].get(tgt)
+        def show(rows):
+            return "nothing" if rows is None else f"ids {ids(rows)}" + ("" if rows == got or got is None or ids(rows) != ids(got) else " with other row contents")
         if r[0] != "ok":
-            problems.append(("history-dependent", f"step {k}: registers {ids(got or [])} under {tgt!r} in the chain, but the same row fails "
+            problems.append(("history-dependent", f"step {k}: registers {show(got)} under {tgt!r} in the chain, but the same row fails "
                              f"on a fresh parser that ran only the rows it depends on {kept}: {r[1:]}"))
         elif r[1].get(tgt) != got:
-            problems.append(("history-dependent", f"step {k}: the chain registers {ids(got or [])} under {tgt!r}; a fresh parser that ran only "
-                             f"the rows this step depends on {kept} registers {ids(r[1].get(tgt) or [])}"))
+            problems.append(("history-dependent", f"step {k}: the chain registers {show(got)} under {tgt!r}; a fresh parser that ran only "
+                             f"the rows this step depends on {kept} (plain single index) registers {show(r[1].get(tgt))}"))
     if states and len(states) == len(idx) and all(s[0] == "ok" for s in states):
         final = states[-1][1]
         tgt = target_of(idx[-1])
@@ -1103,7 +1105,46 @@ def run(ctx):
             "chains_repeat_after_first_registration": 0, "sessions": 0, "session_cases": {}, "session_cases_with_error": 0}
     HIST_STATS.clear()
 
-    def one(case, d, malformed=False):
+    process_log = []    # the last workbooks this process parsed (all streams)
+    proc_keys = set()   # failure classes that turned out to need the process history
+
+    def report_process_history(case, key, text, session):
+        """`case` fails here but not alone in a fresh interpreter: find the earlier workbooks it takes"""
+        if shrunk.get("process-history", 0) >= 2:
+            v.failing_input("process-history", text, dict(fn="session", cases=[case]))
+            return
+        shrunk["process-history"] = shrunk.get("process-history", 0) + 1
+
+        def fails(cand):
+            r = fresh_process_problems(cand)
+            return bool(r) and bool(r[-1])
+        for cand in ([session] if session else []) + [process_log + [case]]:
+            if len(cand) < 2 or not fails(cand):
+                continue
+            pre, budget, n = cand[:-1], 14, 2
+            while pre and budget > 0:
+                chunk = max(1, len(pre) // n)
+                for at in range(0, len(pre), chunk):
+                    trial = pre[:at] + pre[at + chunk:]
+                    budget -= 1
+                    if fails(trial + [case]):
+                        pre = trial
+                        n = max(2, n - 1)
+                        break
+                    if budget <= 0:
+                        break
+                else:
+                    if chunk == 1:
+                        break
+                    n = min(len(pre), n * 2)
+            v.failing_input("process-history", f"workbook {len(pre) + 1} of {len(pre) + 1} parsed one after the other in ONE process: {text}; "
+                            "the same workbook alone in a fresh process is fine", dict(fn="session", cases=pre + [case]))
+            return
+        v.failing_input("process-history", f"{text}; the same workbook alone in a fresh process is fine, and so are the last "
+                        f"{len(process_log)} workbooks of this run followed by it: the replay does not reproduce it",
+                        dict(fn="session", cases=(session or [case])))
+
+    def one(case, d, malformed=False, session=None):
         """one chain: implementation on every prefix + oracles, then the correspondence with the model"""
         d["chains"] += 1
         d["chain_len"][len(case["index"])] = d["chain_len"].get(len(case["index"]), 0) + 1
@@ -1142,9 +1183,21 @@ def run(ctx):
             shrunk[key] = shrunk.get(key, 0) + 1
             small = case
             if shrunk[key] <= 2:
+                # is it this workbook, or what the process parsed before it?  ask a fresh interpreter
+                alone = fresh_process_problems([case])
+                if alone is not None and not alone[-1]:
+                    proc_keys.add(key)
+                    report_process_history(case, key, text, session)
+                    continue
                 small = shrink(case, lambda c, key=key: any(k == key for k, _ in check_case(scr, c)[2]))
                 text = next((t for k, t in check_case(scr, small)[2] if k == key), text)
+            elif key in proc_keys:
+                # same class as a failure that took the process history: counted there (not triaged again)
+                v.failing_input("process-history", text, dict(fn="session", cases=(session or [case])))
+                continue
             v.failing_input(key, text, dict(fn="chain", case=small))
+        process_log.append(case)
+        del process_log[:-80]
         # ---- correspondence with the extracted model
         if m:
             rq, tok, supported = model_request(case)
@@ -1189,24 +1242,8 @@ def run(ctx):
             hist["session_cases"][len(cases)] = hist["session_cases"].get(len(cases), 0) + 1
             for i, case in enumerate(cases):
                 before = hist["chains_with_error"]
-                problems = one(case, hist)
+                one(case, hist, session=cases[:i + 1] if i else None)
                 hist["session_cases_with_error"] += hist["chains_with_error"] - before
-                if problems and shrunk.get("process-history", 0) < 2 and i > 0:
-                    # does it take the earlier workbooks of the session?  ask a fresh interpreter
-                    shrunk["process-history"] = shrunk.get("process-history", 0) + 1
-                    alone = fresh_process_problems([case])
-                    if alone is not None and not alone[-1]:
-                        sess = cases[:i + 1]
-                        for j in range(i - 1, -1, -1):
-                            trial = sess[:j] + sess[j + 1:]
-                            r = fresh_process_problems(trial)
-                            if r is not None and r[-1]:
-                                sess = trial
-                        r = fresh_process_problems(sess)
-                        text = (f"workbook {len(sess)} of {len(sess)} parsed one after the other in ONE process: {problems[0][1]}; "
-                                "the same workbook alone in a fresh process is fine"
-                                + ("" if r and r[-1] else " (needs more of this run's process history than the session: not reproduced by the replay)"))
-                        v.failing_input("process-history", text, dict(fn="session", cases=sess))
         # ---- random chains
         for n in range(n_cases):
             malformed = rng.random() < 0.15
